@@ -68,7 +68,8 @@ NestedStringTokenizer::NestedStringTokenizer(const std::string& s, const std::st
     string::size_type index = 0;
     while (index != s.npos)
     {
-      string::size_type newIndex = s.find(delimiters, index);
+      // An empty delimiter never matches (find would return 'index' forever):
+      string::size_type newIndex = delimiters.empty() ? s.npos : s.find(delimiters, index);
       bool endBlockFound = false;
       while (!endBlockFound)
       {
@@ -89,7 +90,7 @@ NestedStringTokenizer::NestedStringTokenizer(const std::string& s, const std::st
             // Ignore this token untill closing block is found
             cache += s.substr(index, newIndex - index + 1);
             index = newIndex + 1;
-            newIndex = s.find(delimiters, index);
+            newIndex = delimiters.empty() ? s.npos : s.find(delimiters, index);
           }
         }
         else
